@@ -85,11 +85,17 @@ def get_recurrence(cx):
 def get_recurrences(cx):
     """the returned system is CLOSED: it has an equation for the goal monomial and for every monomial that occurs in a right-hand side
     (for every order in which the worklist set is popped); termination of the worklist is not verified."""
+    goal = cx.ref('monomial')
+    cx.param(self=cx.obj('RecBuilder', program=cx.obj('Program', symbols=V('opaque'))), monomial=goal)
+    worklist_closure(cx, goal.t)
+
+
+def worklist_closure(cx, goal_t):
+    """shared by RecBuilder.get_recurrences and DiffRecBuilder.get_recurrences (same worklist): goal_t is the monomial the worklist starts from"""
     REC = z3.Function('recurrence_of', REF, REF)                              # get_recurrence(m) as an expression object
     MONS = z3.Function('monomials_of', REF, z3.SeqSort(tuple_sort([DR, DRef()])[0]))     # get_monoms(rec): (coefficient, monomial) pairs
     _, mk, (acc_c, acc_m) = tuple_sort([DR, DRef()])
-    goal = cx.ref('monomial')
-    cx.param(self=cx.obj('RecBuilder', program=cx.obj('Program', symbols=V('opaque'))), monomial=goal)
+    goal = V('ref', goal_t)
     cx.call('sympify', lambda ex, st, r, a, kw: a[0])
     cx.call('get_recurrence', lambda ex, st, r, a, kw: V('ref', REC(a[0].t)), trusted='get_recurrence contract (above)')
     cx.call('get_monoms', lambda ex, st, r, a, kw: V('seq', MONS(a[0].t), ek=DTuple(DR, DRef())), trusted='get_monoms(rhs): the monomials of the right-hand side (bounded C03 check)')
